@@ -4,6 +4,7 @@ import contextlib
 import copy
 import decimal
 import io
+import json
 import logging
 import math
 import warnings
@@ -184,7 +185,11 @@ def gen_traj(r, n, grid):
 def gen_cases(ctx):
     r = ctx.rng
     th = ctx.thorough
-    # ---- corpus
+    # ---- corpus of minimised past failures (harness/corpus/C12/*.json), replayed first
+    for f in sorted((core.VERIF / "harness" / "corpus" / "C12").glob("*.json")):
+        c = json.loads(f.read_text())["case"]
+        c["corpus"] = f.stem
+        yield c
     yield {"kind": "stats", "e": [1.0]}
     yield {"kind": "stats", "e": [1.0, 2.0, 3.0, 6.0]}
     yield {"kind": "stats", "e": [0.1, 0.1, 0.1]}
@@ -974,7 +979,7 @@ def judge_reuse(ctx, case, impl, outs):
                 f = dec(sf[0]) * pipow(sf[1])
                 exp_vals, exp_unit = [v * f for v in exp_vals], st["unit"]
         else:
-            # ---- model (mirrors the code: process_data keeps the unit of the object)
+            # ---- model (mirrors the code after fix 46322c3: process_data resets the unit to the native one)
             if ri < len(mres):
                 toks = mres[ri].split()
                 mu, mlab, mk = toks[0], bytes.fromhex(toks[1]).decode(), int(toks[2])
@@ -987,7 +992,7 @@ def judge_reuse(ctx, case, impl, outs):
                 ctx.mismatch(case, f"step {k}: no model result", None, outs[0][:60])
             ri += 1
             # ---- oracle
-            tags = {"history": "change_unit-then-process_data"} if converted_earlier and n_proc >= 2 else {}
+            tags = {}
             lab, title = so["label"] or "", so["title"] or ""
             want_u = f"({SPEC_VALUE[exp_unit]})"
             if not (lab.startswith(name) and want_u in lab and want_u in title.split("\n")[0] and SPEC_REL_VALUE[case["rel"]] in title):
